@@ -17,6 +17,7 @@ SPEC = {
         "the input is exhausted; (e) the loop's only non-error exits are 'limit reached' and 'no stream left'; "
         "(f) every communicate-style entry point (Popen::communicate/_bytes, Communicator::read/read_string, "
         "Exec/Pipeline::capture) funnels into this loop — no other pipe read/write is reachable from them."
+        " Thorough tier, cfg(windows) sibling: pipe I/O happens only in the helper threads; the helper protocol terminates (a reader announces EOF exactly on read()==0 and stops, the stream bits are distinct single bits, the receive loop waits only while a bit is left and each EOF retires exactly its sender's bit)."
     ),
     "not_decided": "liveness itself under all kernel schedules and pipe capacities; behaviour of poll(2); the Windows rendezvous protocol "
                    "beyond the clause checked in the thorough tier.",
